@@ -207,7 +207,8 @@ func c20History(t *testing.T, seed uint64, mode string) rt.Result {
 // ------------------------------------------------------------ behaviour
 
 func c20Behaviour(t *testing.T, kind string, seed uint64) rt.Result {
-	out := hz.Run(t, hz.Opts{Seed: seed, HookMode: hz.HookVSleep, NoServe: kind == "before-serve" || kind == "serve-after-close"}, func(w *hz.World) {
+	hook := []int{hz.HookVSleep, hz.HookOff, hz.HookYield}[seed/2%3] // who wins a race at one instant differs by mode
+	out := hz.Run(t, hz.Opts{Seed: seed, HookMode: hook, NoServe: kind == "before-serve" || kind == "serve-after-close"}, func(w *hz.World) {
 		a := netip.MustParseAddr("10.0.1.1")
 		b := netip.MustParseAddr("10.0.1.2")
 		dialsTo := func(x netip.Addr) int {
@@ -295,13 +296,16 @@ func c20Behaviour(t *testing.T, kind string, seed uint64) rt.Result {
 			}
 		case "serve-after-close":
 			w.MustAddPeer(hz.StdPeer(a.String()))
+			for k := 0; k < 40; k++ { // many peers: whatever is started has time to act before it is stopped again
+				w.MustAddPeer(hz.StdPeer(fmt.Sprintf("10.0.3.%d", k+1)))
+			}
 			if seed%2 == 0 {
 				w.Serve()
 				time.Sleep(time.Second)
 			}
 			w.Srv.Close()
 			w.Settle()
-			n := dialsTo(a) // nothing may happen for the peer from here on, whatever is called
+			n := len(w.Dials()) // nothing may happen for any peer from here on, whatever is called
 			if m := w.Mon(a); m != nil {
 				m.Seal("Close") // any plugin callback from now on is reported
 			}
@@ -318,7 +322,7 @@ func c20Behaviour(t *testing.T, kind string, seed uint64) rt.Result {
 				w.Srv.Close()
 			}
 			time.Sleep(20 * time.Second)
-			if m := dialsTo(a); m != n {
+			if m := len(w.Dials()); m != n {
 				w.Violate("peers operate after Close: %d outbound attempt(s) after Close had returned (Serve after Close started them)", m-n)
 			}
 		case "duplicate-add":
